@@ -1,7 +1,9 @@
 ---- MODULE Trace_CallPipeline ----
 (* Trace validation for C01.  One TLC run = the runs of one filter configuration (a child process).       *)
 (* Events: CallStart{c, oneway, sent}  CF{c, ph, i}  SF{c, ph, i}  Impl{c, got}  ImplRet{c, ok, v}           *)
-(*         Written{c} (server hook: reply written)  CallEnd{c, ok, v}  Reset                                 *)
+(*         Written{c} (server hook: reply written)  CallEnd{c, ok, v}                                        *)
+(*         Reg{side, nin, nout} (the harness has registered filters: from now on nin / nout on that side)    *)
+(*         Reset (end of a run; the next run states what is registered by Reg events of its own)             *)
 (* sent / got / v are canonical strings of (arguments, context, status) resp. (ret, outs, response context,  *)
 (* status) resp. (error code, message): equality is decided here, not in the harness.                        *)
 EXTENDS CallPipeline, Json
@@ -9,30 +11,47 @@ VARIABLES l, wseen    \* wseen[c]: replies the server hook saw written for call 
 Trace == ndJsonDeserialize("trace.ndjson")
 tvars == <<vars, l, wseen>>
 TraceInit == Init /\ l = 1 /\ wseen = [c \in Calls |-> 0]
+Cur == Trace[l]
+About(c) == "c" \in DOMAIN Cur /\ Cur.c = c
+Boundary == Cur.e \in {"Reset", "Reg"}     \* the harness waited until nothing was under way
+\* What the next recorded event says about the progress of call c.  A call that has moved on although not every filter
+\* registered at its start has been seen is taken along (the ...Any steps) and judged by FilterOrder; an event of the
+\* server side, the reply or the end of the call say that the client's filters on the way in are behind it, and so on.
+PastCIn(c) == Boundary \/ (About(c) /\ Cur.e \in {"SF", "Impl", "ImplRet", "Written", "CallEnd"})
+PastSIn(c) == About(c) /\ Cur.e \in {"Impl", "ImplRet"}
+PastSOut(c) == Boundary \/ (About(c) /\ (Cur.e = "Written" \/ (Cur.e = "CallEnd" /\ kind[c] = "twoway")))
+CInGo(c) == cpc[c] = "cin" /\ (Len(cfl[c]) >= NCI(c) \/ PastCIn(c))
+SInGo(c) == spc[c] = "sin" /\ (Len(sfl[c]) >= NSI(c) \/ PastSIn(c))
+SOutGo(c) == spc[c] = "sout" /\ (Len(sfl[c]) >= (NSI(c) + NSO(c)) \/ PastSOut(c))
 \* the unlogged steps of one call commute with everything of other calls and never disable a logged event: they are
-\* taken eagerly and only for the call the next event speaks about (before a Reset: for the least call that still has
-\* one), which keeps validation linear in the length of the trace
-SilentFor(c) == CInDone(c) \/ Wire(c) \/ SInDone(c) \/ SOutDone(c) \/ ReplyWritten(c) \/ NoReply(c) \/ ReplyArrives(c)
+\* taken eagerly and only for the call the next event speaks about (before a Reset or Reg: for the least call that still
+\* has one), which keeps validation linear in the length of the trace
+SilentFor(c) == \/ (CInGo(c) /\ CInDoneAny(c)) \/ Wire(c) \/ (SInGo(c) /\ SInDoneAny(c)) \/ (SOutGo(c) /\ SOutDoneAny(c))
+                \/ ReplyWritten(c) \/ NoReply(c) \/ ReplyArrives(c)
 \* (written out as a state predicate: ENABLED inside an action is not evaluated reliably by TLC)
-HasSilent(c) == \/ cpc[c] = "cin" /\ Len(cfl[c]) >= Len(CI)
+HasSilent(c) == \/ CInGo(c)
                 \/ cpc[c] = "wire"
-                \/ spc[c] = "sin" /\ Len(sfl[c]) >= Len(SI)
-                \/ spc[c] = "sout" /\ Len(sfl[c]) >= Len(SI) + Len(SO)
+                \/ SInGo(c)
+                \/ SOutGo(c)
                 \/ spc[c] = "reply"
                 \/ cpc[c] = "wait" /\ spc[c] = "fin"
-IsEvent(e) == /\ l <= Len(Trace) /\ Trace[l].e = e /\ l' = l + 1
-              /\ ("c" \in DOMAIN Trace[l]) => ~HasSilent(Trace[l].c)
+\* an event that cannot be attributed to a call of the run (c outside Calls) is not a step of the specification
+IsEvent(e) == /\ l <= Len(Trace) /\ Cur.e = e /\ l' = l + 1
+              /\ ("c" \in DOMAIN Cur) => (Cur.c \in Calls /\ ~HasSilent(Cur.c))
 KeepW == UNCHANGED wseen
-TStart == KeepW /\ IsEvent("CallStart") /\ Start(Trace[l].c, IF Trace[l].oneway THEN "oneway" ELSE "twoway", Trace[l].sent)
-Ev == <<Trace[l].ph, Trace[l].i>>
-TCF == KeepW /\ IsEvent("CF") /\ (CFilterIn(Trace[l].c, Ev) \/ CFilterOut(Trace[l].c, Ev))
-TSF == KeepW /\ IsEvent("SF") /\ (SFilterIn(Trace[l].c, Ev) \/ SFilterOut(Trace[l].c, Ev))
-TImpl == KeepW /\ IsEvent("Impl") /\ ImplCall(Trace[l].c, Trace[l].got)
-TImplRet == KeepW /\ IsEvent("ImplRet") /\ ImplRet(Trace[l].c, [ok |-> Trace[l].ok, v |-> Trace[l].v])
+TStart == KeepW /\ IsEvent("CallStart") /\ Start(Cur.c, IF Cur.oneway THEN "oneway" ELSE "twoway", Cur.sent)
+Ev == <<Cur.ph, Cur.i>>
+TCF == KeepW /\ IsEvent("CF") /\ (CFilterIn(Cur.c, Ev) \/ CFilterOut(Cur.c, Ev))
+TSF == KeepW /\ IsEvent("SF") /\ (SFilterIn(Cur.c, Ev) \/ SFilterOut(Cur.c, Ev))
+TImpl == KeepW /\ IsEvent("Impl") /\ ImplCall(Cur.c, Cur.got)
+TImplRet == KeepW /\ IsEvent("ImplRet") /\ ImplRet(Cur.c, [ok |-> Cur.ok, v |-> Cur.v])
 \* the hook after conn.Write may be recorded after the client has already seen the reply: the write itself is a silent
 \* step, the event is counted and judged (at most one reply for a two-way call, none for a one-way call)
-TWritten == /\ IsEvent("Written") /\ wseen' = [wseen EXCEPT ![Trace[l].c] = @ + 1] /\ UNCHANGED vars
-TEnd == KeepW /\ IsEvent("CallEnd") /\ End(Trace[l].c, [ok |-> Trace[l].ok, v |-> Trace[l].v])
+TWritten == /\ IsEvent("Written") /\ wseen' = [wseen EXCEPT ![Cur.c] = @ + 1] /\ UNCHANGED vars
+TEnd == KeepW /\ IsEvent("CallEnd") /\ EndAny(Cur.c, [ok |-> Cur.ok, v |-> Cur.v])
+\* filters registered between calls
+TReg == /\ KeepW /\ IsEvent("Reg")
+        /\ IF Cur.side = "c" THEN RegisterC(<<Cur.nin, Cur.nout>>) ELSE RegisterS(<<Cur.nin, Cur.nout>>)
 \* end of a run (the harness waited for the server side of one-way calls): every call reached the implementation once
 TReset == /\ IsEvent("Reset")
           /\ \A c \in Calls : cpc[c] \in {"idle", "done"} /\ (cpc[c] = "done" => spc[c] = "fin")
@@ -43,12 +62,13 @@ TReset == /\ IsEvent("Reset")
           /\ produced' = [c \in Calls |-> None] /\ returned' = [c \in Calls |-> None]
           /\ cfl' = [c \in Calls |-> <<>>] /\ sfl' = [c \in Calls |-> <<>>]
           /\ implCount' = [c \in Calls |-> 0] /\ replies' = [c \in Calls |-> 0]
+          /\ creg' = <<0, 0>> /\ sreg' = <<0, 0>> /\ cn' = [c \in Calls |-> <<0, 0>>] /\ sn' = [c \in Calls |-> <<0, 0>>]
 TSilent == /\ l <= Len(Trace)
            /\ \E c \in Calls :
-                /\ IF Trace[l].e = "Reset" THEN HasSilent(c) /\ \A d \in Calls : d < c => ~HasSilent(d) ELSE c = Trace[l].c
+                /\ IF Boundary THEN HasSilent(c) /\ \A d \in Calls : d < c => ~HasSilent(d) ELSE About(c)
                 /\ SilentFor(c)
            /\ UNCHANGED <<l, wseen>>
-TraceNext == TStart \/ TCF \/ TSF \/ TImpl \/ TImplRet \/ TWritten \/ TEnd \/ TReset \/ TSilent
+TraceNext == TStart \/ TCF \/ TSF \/ TImpl \/ TImplRet \/ TWritten \/ TEnd \/ TReg \/ TReset \/ TSilent
 TraceSpec == TraceInit /\ [][TraceNext]_tvars
 ASSUME TLCSet(1, 0)
 HighWater == (IF l > TLCGet(1) THEN TLCSet(1, l) ELSE TRUE)
